@@ -1,117 +1,220 @@
-(* C07: requests without a body, framed by Content-Length, or chunked (no extensions, no trailers). *)
+(* C07: requests and responses without a body, framed by Content-Length, or chunked (no extensions, no trailers). *)
 Require Import HttpParser C06Proofs C07Reqs C07Dec C07Body C07Chunk.
 From Coq Require Import List NArith ZArith Bool Lia.
 Import ListNotations.
 Open Scope N_scope.
 
 Inductive framing := FNone | FLen (b : bytes) | FChunked (cs : list bytes).
-Record msg := { mreq : req; mbody : framing }.
 
-Definition render_head (r : req) (h : hdr) : bytes :=
-  rmethod r ++ [SP] ++ rtarget r ++ [SP] ++ rproto r ++ [CR; LF] ++
-  concat (map render_hdr (rhdrs r)) ++ render_hdr h ++ [CR; LF].
-Definition head_events (r : req) (h : hdr) : list event :=
-  [EMethod (rmethod r); EURL (rtarget r); EProto (rproto r)] ++
-  map (fun h => EHeader (canonical (hname h)) (hvalue h)) (rhdrs r) ++ [EHeader (canonical (hname h)) (hvalue h)].
-
-Definition render_msg (m : msg) : bytes :=
-  match mbody m with
-  | FNone => render (mreq m)
-  | FLen b => render_head (mreq m) (cl_hdr (N.of_nat (length b))) ++ b
-  | FChunked cs => render_head (mreq m) te_hdr ++ concat (map render_chunk cs) ++ last_chunk
-  end.
-
-Definition meaning_msg (m : msg) : list event :=
-  match mbody m with
-  | FNone => meaning (mreq m)
-  | FLen b => head_events (mreq m) (cl_hdr (N.of_nat (length b))) ++
-              [EContentLength (Z.of_nat (length b))] ++ body_events b ++ [EComplete]
-  | FChunked cs => head_events (mreq m) te_hdr ++ [EContentLength (-1)%Z] ++ map EBody cs ++ [EComplete]
-  end.
-
-Definition wf_msg (m : msg) : Prop :=
-  wf_req (mreq m) /\
-  match mbody m with
+Definition wf_framing (fr : framing) : Prop :=
+  match fr with
   | FNone => True
   | FLen b => N.of_nat (length b) < LIM
   | FChunked cs => Forall wf_chunk cs
   end.
 
-(* request line, ordinary headers and one framing header, up to (not including) the blank line *)
-Lemma run_head r h p rest :
-  wf_req r -> wf_hdr0 h -> boundary p ->
-  exists q, hdr_state q /\
-    h_te q = h_te (record_hdr (canonical (hname h)) (hvalue h) (init false)) /\
-    h_cl q = h_cl (record_hdr (canonical (hname h)) (hvalue h) (init false)) /\
-    h_tr q = h_tr (record_hdr (canonical (hname h)) (hvalue h) (init false)) /\
-    trailer q = [] /\ chunked q = false /\ is_client q = false /\ proto q = [] /\
-    run_bytes p (rmethod r ++ [SP] ++ rtarget r ++ [SP] ++ rproto r ++ [CR; LF] ++
-                 concat (map render_hdr (rhdrs r)) ++ render_hdr h ++ rest) [] =
-    run_bytes q rest (head_events r h).
+(* everything behind the start line: header lines, the framing header, the blank line, the body *)
+Definition render_rest (hs : list hdr) (fr : framing) : bytes :=
+  concat (map render_hdr hs) ++
+  match fr with
+  | FNone => [CR; LF]
+  | FLen b => render_hdr (cl_hdr (N.of_nat (length b))) ++ [CR; LF] ++ b
+  | FChunked cs => render_hdr te_hdr ++ [CR; LF] ++ concat (map render_chunk cs) ++ last_chunk
+  end.
+
+Definition rest_events (hs : list hdr) (fr : framing) : list event :=
+  map (fun h => EHeader (canonical (hname h)) (hvalue h)) hs ++
+  match fr with
+  | FNone => [EContentLength (-1)%Z; EComplete]
+  | FLen b => [EHeader k_CL (dec (N.of_nat (length b))); EContentLength (Z.of_nat (length b))] ++ body_events b ++ [EComplete]
+  | FChunked cs => [EHeader k_TE s_chunked; EContentLength (-1)%Z] ++ map EBody cs ++ [EComplete]
+  end.
+
+Lemma run_rest cl hs fr q rest acc :
+  hdr_state q -> h_te q = [] -> h_cl q = [] -> h_tr q = [] -> trailer q = [] ->
+  chunked q = false -> is_client q = cl -> proto q = [] ->
+  Forall wf_hdr hs -> wf_framing fr ->
+  exists p', boundaryc cl p' /\
+    run_bytes q (render_rest hs fr ++ rest) acc = run_bytes p' rest (acc ++ rest_events hs fr).
 Proof.
-  intros (Hm & (c1 & t1 & Ht1 & Hc1 & Hf1) & (c2 & t2 & Ht2 & Hc2 & Hc2' & Hf2) & Hh) Hw
-         (Bs & Bt & Bp & Bk & Bv & B1 & B2 & B3 & B4 & B5 & B6 & B7).
-  unfold head_events. rewrite Ht1, Ht2. cbn [app]. repeat (rewrite <- app_assoc; cbn [app]).
+  intros Hq A1 A2 A3 A4 A5 A6 A7 Hh Hf. unfold render_rest, rest_events. rewrite <- !app_assoc.
+  set (tailb := match fr with FNone => _ | FLen b => _ | FChunked cs => _ end).
+  destruct (run_hdrs hs q (tailb ++ rest) acc Hq Hh) as (q1 & Hq1 & F1 & F2 & F3 & F4 & F5 & F6 & F7 & Hrun).
+  rewrite Hrun. unfold tailb. clear Hrun tailb.
+  set (acc1 := acc ++ map _ hs).
+  assert (E1 : h_te q1 = []) by congruence. assert (E2 : h_cl q1 = []) by congruence.
+  assert (E3 : h_tr q1 = []) by congruence. assert (E4 : trailer q1 = []) by congruence.
+  assert (E5 : chunked q1 = false) by congruence. assert (E6 : is_client q1 = cl) by congruence.
+  assert (E7 : proto q1 = []) by congruence.
+  destruct fr as [|b|cs].
+  - destruct (run_end cl q1 rest acc1 Hq1 E1 E2 E3 E4 E5 E6 E7) as (p' & Hb & Hr).
+    exists p'. split; auto. cbn [app]. rewrite Hr. unfold acc1. now rewrite <- app_assoc.
+  - set (n := N.of_nat (length b)) in *. rewrite <- !app_assoc.
+    destruct (run_hdr_any q1 (cl_hdr n) ([CR; LF] ++ b ++ rest) acc1 Hq1 (wf_cl_hdr n))
+      as (q2 & Hq2 & _ & G1 & G2 & G3 & G4 & G5 & G6 & G7 & Hr2).
+    rewrite Hr2. cbn [cl_hdr hname hvalue] in *. rewrite canonical_cl in *.
+    assert (Hrec : record_hdr k_CL (dec n) q1 = set_hdrs (h_te q1) (h_cl q1 ++ [dec n]) (h_tr q1) q1) by reflexivity.
+    rewrite Hrec in G1, G2, G3. cbn [h_te h_cl h_tr set_hdrs] in G1, G2, G3. rewrite E2 in G2. cbn [app] in G2.
+    destruct (run_end_cl cl q2 b rest (acc1 ++ [EHeader k_CL (dec n)]) n Hq2) as (p' & Hb & Hr3); try congruence; auto.
+    exists p'. split; auto. cbn [app] in *. rewrite Hr3. unfold acc1, n. rewrite nat_N_Z.
+    repeat (rewrite <- app_assoc; cbn [app]). reflexivity.
+  - rewrite <- !app_assoc.
+    destruct (run_hdr_any q1 te_hdr ([CR; LF] ++ concat (map render_chunk cs) ++ last_chunk ++ rest) acc1 Hq1 wf_te_hdr)
+      as (q2 & Hq2 & _ & G1 & G2 & G3 & G4 & G5 & G6 & G7 & Hr2).
+    rewrite Hr2. cbn [te_hdr hname hvalue] in *. rewrite canonical_te in *.
+    assert (Hrec : record_hdr k_TE s_chunked q1 = set_hdrs (h_te q1 ++ [s_chunked]) (h_cl q1) (h_tr q1) q1) by reflexivity.
+    rewrite Hrec in G1, G2, G3. cbn [h_te h_cl h_tr set_hdrs] in G1, G2, G3. rewrite E1 in G1. cbn [app] in G1.
+    cbn [app].
+    destruct (run_end_chunked cl q2 (concat (map render_chunk cs) ++ last_chunk ++ rest) (acc1 ++ [EHeader k_TE s_chunked]) Hq2)
+      as (q3 & Hq3 & Hr3); try congruence.
+    rewrite Hr3.
+    destruct (run_chunks cl cs q3 (last_chunk ++ rest) ((acc1 ++ [EHeader k_TE s_chunked]) ++ [EContentLength (-1)%Z]) Hq3 Hf)
+      as (q4 & Hq4 & Hr4).
+    rewrite Hr4.
+    destruct (run_last_chunk cl q4 rest (((acc1 ++ [EHeader k_TE s_chunked]) ++ [EContentLength (-1)%Z]) ++ map EBody cs) Hq4)
+      as (p' & Hb & Hr5).
+    exists p'. split; auto. rewrite Hr5. unfold acc1. repeat (rewrite <- app_assoc; cbn [app]). reflexivity.
+Qed.
+
+(* ---------- requests ---------- *)
+Record msg := { mreq : req; mbody : framing }.
+
+Definition render_msg (m : msg) : bytes :=
+  let r := mreq m in
+  rmethod r ++ [SP] ++ rtarget r ++ [SP] ++ rproto r ++ [CR; LF] ++ render_rest (rhdrs r) (mbody m).
+Definition meaning_msg (m : msg) : list event :=
+  let r := mreq m in
+  [EMethod (rmethod r); EURL (rtarget r); EProto (rproto r)] ++ rest_events (rhdrs r) (mbody m).
+Definition wf_msg (m : msg) : Prop := wf_req (mreq m) /\ wf_framing (mbody m).
+
+Lemma render_msg_none r : render_msg {| mreq := r; mbody := FNone |} = render r.
+Proof. reflexivity. Qed.
+Lemma meaning_msg_none r : meaning_msg {| mreq := r; mbody := FNone |} = meaning r.
+Proof. reflexivity. Qed.
+
+Theorem c07_roundtrip_msg m p rest :
+  wf_msg m -> boundary p ->
+  exists p', boundary p' /\ run_bytes p (render_msg m ++ rest) [] = run_bytes p' rest (meaning_msg m).
+Proof.
+  intros ((Hm & (c1 & t1 & Ht1 & Hc1 & Hf1) & (c2 & t2 & Ht2 & Hc2 & Hc2' & Hf2) & Hh) & Hfr)
+         (Bs & Bt & Bp & Bk & Bv & B1 & B2 & B3 & B4 & B5 & B6 & B7 & B8).
+  unfold render_msg, meaning_msg. cbv zeta. rewrite Ht1, Ht2. cbn [app]. repeat (rewrite <- app_assoc; cbn [app]).
   rewrite run_method by auto.
   rewrite run_target by auto.
   rewrite run_proto by auto.
   set (q := set_tok [] _).
   assert (Hq : hdr_state q) by (unfold hdr_state, q; cbn; auto).
   match goal with |- context[run_bytes q _ ?a] =>
-    destruct (run_hdrs (rhdrs r) q (render_hdr h ++ rest) a Hq Hh)
-      as (q1 & Hq1 & F1 & F2 & F3 & F4 & F5 & F6 & F7 & Hrun)
+    destruct (run_rest false (rhdrs (mreq m)) (mbody m) q rest a Hq) as (p' & Hb & Hr); auto;
+      try (unfold q; cbn; assumption)
   end.
-  rewrite Hrun.
-  match goal with |- context[run_bytes q1 _ ?a] =>
-    destruct (run_hdr_any q1 h rest a Hq1 Hw)
-      as (q2 & Hq2 & _ & G1 & G2 & G3 & G4 & G5 & G6 & G7 & Hrun2)
-  end.
-  rewrite Hrun2.
-  assert (E1 : h_te q1 = []) by (rewrite F1; unfold q; cbn; auto).
-  assert (E2 : h_cl q1 = []) by (rewrite F2; unfold q; cbn; auto).
-  assert (E3 : h_tr q1 = []) by (rewrite F3; unfold q; cbn; auto).
-  exists q2. split; [exact Hq2|].
-  assert (R : forall K V,
-            h_te (record_hdr K V q1) = h_te (record_hdr K V (init false)) /\
-            h_cl (record_hdr K V q1) = h_cl (record_hdr K V (init false)) /\
-            h_tr (record_hdr K V q1) = h_tr (record_hdr K V (init false))).
-  { intros K V. unfold record_hdr.
-    destruct (beq K k_TE); [cbn; rewrite E1, E2, E3; auto|].
-    destruct (beq K k_Trailer); [cbn; rewrite E1, E2, E3; auto|].
-    destruct (beq K k_CL); cbn; rewrite E1, E2, E3; auto. }
-  destruct (R (canonical (hname h)) (hvalue h)) as (R1 & R2 & R3).
-  repeat split; try congruence;
-    try (rewrite ?G4, ?G5, ?G6, ?G7, ?F4, ?F5, ?F6, ?F7; unfold q; cbn; auto; fail).
-  all: try (f_equal; repeat (rewrite <- app_assoc; cbn [app]); reflexivity).
+  exists p'. split; [exact Hb|]. rewrite Hr. f_equal.
 Qed.
 
-Theorem c07_roundtrip_msg m p rest :
-  wf_msg m -> boundary p ->
-  exists p', boundary p' /\ run_bytes p (render_msg m ++ rest) [] = run_bytes p' rest (meaning_msg m).
+(* ---------- responses ---------- *)
+Record resp := { sproto : bytes; scode : N; sword : bytes; stail : bytes; shdrs : list hdr; sbody : framing }.
+
+Definition render_resp (r : resp) : bytes :=
+  sproto r ++ [SP] ++ dec (scode r) ++ [SP] ++ sword r ++ stail r ++ [CR; LF] ++ render_rest (shdrs r) (sbody r).
+(* the parser keeps the first word of the reason phrase *)
+Definition meaning_resp (r : resp) : list event :=
+  [EProto (sproto r); EStatus (Z.of_N (scode r)) (sword r)] ++ rest_events (shdrs r) (sbody r).
+
+Definition wf_resp (r : resp) : Prop :=
+  (exists t, sproto r = cH :: t /\ Forall (fun x => x <> SP) t) /\
+  scode r < LIM /\
+  (exists c w, sword r = c :: w /\ is_alpha c = true /\ Forall (fun x => x <> SP /\ x <> CR) w) /\
+  (stail r = [] \/ exists u, stail r = SP :: u /\ Forall (fun x => x <> CR) u) /\
+  Forall wf_hdr (shdrs r) /\ wf_framing (sbody r).
+
+Lemma stable_cproto : stable SClientProto (fun c => c <> SP).
+Proof. intros p c Hs Hc. unfold stepb. rewrite Hs. destruct (N.eqb_spec c SP); [contradiction|reflexivity]. Qed.
+Lemma stable_scode : stable SStatusCode (fun c => is_num c = true).
 Proof.
-  intros (Hr & Hb) Hp. unfold render_msg, meaning_msg.
-  destruct (mbody m) as [|b|cs]; [now apply c07_roundtrip_nobody| |].
-  - set (n := N.of_nat (length b)) in *. unfold render_head. rewrite <- !app_assoc.
-    destruct (run_head (mreq m) (cl_hdr n) p ([CR; LF] ++ b ++ rest) Hr (wf_cl_hdr n) Hp)
-      as (q & Hq & T1 & T2 & T3 & T4 & T5 & T6 & T7 & Hrun).
-    rewrite Hrun. cbn [app].
-    cbn [cl_hdr hname hvalue] in T1, T2, T3. rewrite canonical_cl in T1, T2, T3.
-    destruct (run_end_cl q b rest (head_events (mreq m) (cl_hdr n)) n Hq) as (p' & Hb' & Hrun3); auto.
-    exists p'. split; auto. rewrite Hrun3. unfold n. now rewrite nat_N_Z.
-  - unfold render_head. rewrite <- !app_assoc.
-    destruct (run_head (mreq m) te_hdr p ([CR; LF] ++ concat (map render_chunk cs) ++ last_chunk ++ rest) Hr wf_te_hdr Hp)
-      as (q & Hq & T1 & T2 & T3 & T4 & T5 & T6 & T7 & Hrun).
-    rewrite Hrun. cbn [app].
-    cbn [te_hdr hname hvalue] in T1, T2, T3. rewrite canonical_te in T1, T2, T3.
-    destruct (run_end_chunked q (concat (map render_chunk cs) ++ last_chunk ++ rest) (head_events (mreq m) te_hdr) Hq)
-      as (q1 & Hq1 & Hrun1); auto.
-    rewrite Hrun1.
-    destruct (run_chunks cs q1 (last_chunk ++ rest) (head_events (mreq m) te_hdr ++ [EContentLength (-1)%Z]) Hq1 Hb)
-      as (q2 & Hq2 & Hrun2).
-    rewrite Hrun2.
-    destruct (run_last_chunk q2 rest ((head_events (mreq m) te_hdr ++ [EContentLength (-1)%Z]) ++ map EBody cs) Hq2)
-      as (p' & Hb' & Hrun3).
-    exists p'. split; auto. rewrite Hrun3. repeat (rewrite <- app_assoc; cbn [app]). reflexivity.
+  intros p c Hs Hc. unfold stepb. rewrite Hs. destruct (N.eqb_spec c SP) as [->|_]; [discriminate Hc|]. now rewrite Hc.
+Qed.
+Lemma stable_sword : stable SStatus (fun c => c <> SP /\ c <> CR).
+Proof.
+  intros p c Hs [H1 H2]. unfold stepb. rewrite Hs.
+  destruct (N.eqb_spec c SP); [contradiction|]. destruct (N.eqb_spec c CR); [contradiction|reflexivity].
+Qed.
+(* behind the first word: spaces no longer change the status *)
+Lemma run_stail u : forall p acc, st p = SStatus -> status p <> [] -> Forall (fun x => x <> CR) u ->
+  run_bytes p u acc = (set_tok (tok p ++ u) p, acc, None).
+Proof.
+  induction u as [|c u IH]; intros p acc Hs Hn Hu; cbn [run_bytes].
+  - rewrite app_nil_r. destruct p; reflexivity.
+  - inversion Hu as [|? ? Hc Hu']; subst.
+    assert (S : stepb p c = Go_on (keep c p) []).
+    { unfold stepb. rewrite Hs. destruct (N.eqb_spec c SP).
+      - destruct (status p); [congruence|reflexivity].
+      - destruct (N.eqb_spec c CR); [contradiction|reflexivity]. }
+    rewrite S, IH; auto. rewrite app_nil_r. unfold keep; cbn. now rewrite <- app_assoc.
+Qed.
+
+Lemma run_status_line r p rest :
+  wf_resp r -> boundaryc true p ->
+  exists q, hdr_state q /\ h_te q = [] /\ h_cl q = [] /\ h_tr q = [] /\ trailer q = [] /\
+    chunked q = false /\ is_client q = true /\ proto q = [] /\
+    run_bytes p (sproto r ++ [SP] ++ dec (scode r) ++ [SP] ++ sword r ++ stail r ++ [CR; LF] ++ rest) [] =
+    run_bytes q rest [EProto (sproto r); EStatus (Z.of_N (scode r)) (sword r)].
+Proof.
+  intros ((t & Hp & Hpt) & Hc & (c & w & Hw & Hca & Hwf) & Ht & _ & _)
+         (Bs & Bt & Bp & Bk & Bv & B1 & B2 & B3 & B4 & B5 & B6 & B7 & B8).
+  rewrite Hp, Hw. cbn [app].
+  erewrite run_step by (unfold stepb; rewrite Bs; cbn; reflexivity).
+  rewrite run_bytes_app, (run_stable SClientProto _ stable_cproto t) by auto.
+  cbn [tok at_i set_tok app].
+  erewrite run_step.
+  2:{ unfold stepb. cbn [st set_tok at_i set_st N.eqb SP Pos.eqb proto tok]. rewrite Bp. reflexivity. }
+  cbn [isnil app].
+  destruct (dec_head (scode r)) as (d0 & dt & Ed & Hd0).
+  pose proof (dec_digits (scode r)) as Hdd. rewrite Ed in Hdd. inversion Hdd as [|? ? _ Hdt]; subst.
+  rewrite Ed. cbn [app].
+  erewrite run_step.
+  2:{ unfold stepb. cbn [st keep set_tok set_st set_proto]. destruct (N.eqb_spec d0 SP) as [->|_]; [discriminate Hd0|].
+      rewrite Hd0. reflexivity. }
+  rewrite run_bytes_app, (run_stable SStatusCode _ stable_scode dt) by auto.
+  cbn [tok at_i set_tok app].
+  erewrite run_step.
+  2:{ unfold stepb. cbn [st set_tok at_i set_st N.eqb SP Pos.eqb tok]. rewrite <- Ed, (atoi_dec _ Hc). reflexivity. }
+  cbn [app].
+  erewrite run_step.
+  2:{ unfold stepb. cbn [st keep set_tok set_st set_scode]. destruct (N.eqb_spec c SP) as [->|_]; [discriminate Hca|].
+      rewrite Hca. reflexivity. }
+  rewrite run_bytes_app, (run_stable SStatus _ stable_sword w) by auto.
+  cbn [tok at_i set_tok app].
+  set (q0 := set_tok (c :: w) _).
+  assert (Hq0s : st q0 = SStatus) by reflexivity.
+  assert (Hq0t : status q0 = []) by exact B8.
+  destruct Ht as [Et | (u & Et & Hu)]; rewrite Et.
+  - cbn [app].
+    erewrite run_step by (unfold stepb; rewrite Hq0s; cbn [N.eqb CR SP Pos.eqb]; rewrite Hq0t; reflexivity).
+    erewrite run_step by (unfold stepb; reflexivity).
+    eexists. split; [|split; [|split; [|split; [|split; [|split; [|split; [|split; [|cbn [app isnil tok]; reflexivity]]]]]]]];
+      unfold hdr_state, q0; cbn; auto.
+  - cbn [app].
+    erewrite run_step by (unfold stepb; rewrite Hq0s; cbn [N.eqb SP Pos.eqb]; rewrite Hq0t; reflexivity).
+    cbn [isnil].
+    rewrite run_bytes_app, (run_stail u) by (auto; unfold q0; cbn; discriminate).
+    erewrite run_step by (unfold stepb; reflexivity).
+    erewrite run_step by (unfold stepb; reflexivity).
+    eexists. split; [|split; [|split; [|split; [|split; [|split; [|split; [|split; [|cbn [app]; reflexivity]]]]]]]];
+      unfold hdr_state, q0; cbn; auto.
+Qed.
+
+Theorem c07_roundtrip_resp r p rest :
+  wf_resp r -> boundaryc true p ->
+  exists p', boundaryc true p' /\ run_bytes p (render_resp r ++ rest) [] = run_bytes p' rest (meaning_resp r).
+Proof.
+  intros Hr Hp. unfold render_resp, meaning_resp. rewrite <- !app_assoc.
+  destruct (run_status_line r p (render_rest (shdrs r) (sbody r) ++ rest) Hr Hp)
+    as (q & Hq & A1 & A2 & A3 & A4 & A5 & A6 & A7 & Hrun).
+  rewrite Hrun. destruct Hr as (_ & _ & _ & _ & Hh & Hf).
+  destruct (run_rest true (shdrs r) (sbody r) q rest [EProto (sproto r); EStatus (Z.of_N (scode r)) (sword r)] Hq)
+    as (p' & Hb & Hr'); auto.
+  exists p'. split; [exact Hb|]. rewrite Hr'. reflexivity.
 Qed.
 
 Print Assumptions c07_roundtrip_msg.
+Print Assumptions c07_roundtrip_resp.
